@@ -143,6 +143,21 @@ def make_tensor(label, modes, ordering):
     )
 
 
+def _concrete(name):
+    fn = getattr(itertools, name)
+
+    def call(*args, **kwargs):
+        for a in args:
+            if not isinstance(a, (tuple, list, range, str, KeysView, dict)):
+                raise Uninterpretable(f"itertools.{name} of a symbolic sequence")
+        return tuple(fn(*args, **kwargs))
+
+    return call
+
+
+ITERTOOLS = Obj("module", **{n: _concrete(n) for n in ("zip_longest", "chain", "pairwise", "product", "permutations", "combinations")})
+
+
 class Evaluator:
     def __init__(self, func_node: ast.FunctionDef, assumptions, globals_=None):
         self.fn = func_node
@@ -162,7 +177,9 @@ class Evaluator:
                 return self.globals[e.id]
             if e.id == "Mode":
                 return MODE
-            if e.id in ("Tensor", "Real", "NotImplemented", "ValueError", "TypeError", "NotImplementedError", "object"):
+            if e.id == "itertools":
+                return ITERTOOLS
+            if e.id in ("Tensor", "Real", "NotImplemented", "ValueError", "TypeError", "NotImplementedError", "object", "int", "float", "str", "bool", "list", "tuple", "dict", "Integral", "Number"):
                 return NOT_IMPLEMENTED if e.id == "NotImplemented" else Obj("Class", name=e.id)
             raise Uninterpretable(f"name {e.id}")
         if isinstance(e, ast.Attribute):
@@ -646,7 +663,13 @@ class Evaluator:
             if name == "str":
                 return str(args[0])
             if name == "float":
-                return args[0] if isinstance(args[0], Obj) else float(args[0])
+                return args[0] if isinstance(args[0], (Obj, Poly)) else float(args[0])
+            if name == "int" and len(args) == 1:
+                return args[0] if isinstance(args[0], Poly) else int(args[0])
+            if name == "bool" and len(args) == 1:
+                return self.truth(args[0])
+            if name == "hasattr" and isinstance(args[0], Obj) and "__methods__" in args[0].attrs:
+                return args[1] in args[0].attrs or args[1] in args[0].attrs["__methods__"]
             if name == "isinstance":
                 v, c = args
                 classes = c if isinstance(c, tuple) else (c,)
@@ -657,9 +680,11 @@ class Evaluator:
                         raise Uninterpretable(f"isinstance {ast.unparse(e)}")
                     if isinstance(v, Obj) and (v.tag == cname or cname in v.attrs.get("__bases__", ())):
                         res = True
-                    if cname in ("Real", "float", "int", "Number") and isinstance(v, (int, float)) and not isinstance(v, bool):
-                        if cname != "int" or isinstance(v, int):
+                    if cname in ("Real", "float", "int", "Number", "Integral") and isinstance(v, (int, float)) and not isinstance(v, bool):
+                        if cname not in ("int", "Integral") or isinstance(v, int):
                             res = True
+                    if cname in ("Real", "int", "Number", "Integral") and isinstance(v, Poly):
+                        res = True  # a symbolic integer
                     if cname == "str" and isinstance(v, str):
                         res = True
                     if cname in ("list", "tuple", "dict") and type(v).__name__ == cname:
@@ -671,6 +696,8 @@ class Evaluator:
                 return Obj("Tensor", label="output", cffi_tensor=args[0] if args else None)
             if name in ("ValueError", "TypeError", "NotImplementedError"):
                 return Obj("Exception", name=name)
+            if name == "object" and not args:
+                return Obj("object")
             raise Uninterpretable(f"call of {name}")
         f = self.ev(fn, env)
         if isinstance(f, tuple) and f[0] == "boundmethod":
